@@ -88,6 +88,9 @@ func (g *gen) e2op(kind string, nh int) Op {
 	if op.ExpKind == 1 {
 		op.ExpKind = 2 // absolute only: a relative expiry is anchored at an unknown instant of a concurrent run
 	}
+	if op.ExpKind == 3 {
+		op.ExpKind = 0
+	}
 	for i := range op.Cb {
 		_ = i
 	}
@@ -452,6 +455,9 @@ func GenE2(prop string, seed uint64) *Program {
 			prog.Tasks = append(prog.Tasks, ops)
 		}
 	case "ckpt":
+		if r.Chance(40) {
+			g.keys = append(g.keys, "cp-notes") // a user document whose key begins with the feed's checkpoint prefix
+		}
 		// the clock stands still in these runs, so CAS values are consecutive integers: start them at an
 		// arbitrary offset (checkpoints are JSON numbers near 2^60)
 		prog.Setup = append(prog.Setup, Op{Kind: "HLCBurn", Dur: r.Intn(400)})
@@ -489,13 +495,15 @@ func GenE2(prop string, seed uint64) *Program {
 		var ids []FeedSpec
 		for i := 0; i < nf; i++ {
 			fs := FeedSpec{ID: fmt.Sprintf("f%d", i), Handle: r.Intn(2), Coll: r.Intn(2)}
-			switch r.Intn(6) {
+			switch r.Intn(7) {
 			case 0:
 				fs.KeysOnly = true
 			case 1:
 				fs.Bucket = true
 			case 2:
 				fs.Backfill = "zero"
+			case 3:
+				fs.Backfill, fs.Ckpt = "resume", fmt.Sprintf("cp%d", i) // writes a checkpoint when it ends
 			}
 			prog.Feeds = append(prog.Feeds, fs)
 			ids = append(ids, fs)
